@@ -108,13 +108,17 @@ def preprocess_transforms(ctx, rng):
     import hvsrpy
     from hvsrpy.instrument_response import InstrumentTransferFunction
     lines, cases = [], []
-    for i in range(ctx.budget(6, 60)):
-        dt = float(rng.choice(pg.DTS)); L = int(rng.integers(8, 16)); w = float(rng.choice(pg.WIDTHS))
+    for i in range(ctx.budget(12, 60)):
+        dt = float(rng.choice(pg.DTS)); L = int(rng.integers(8, 17)); w = float(rng.choice(pg.WIDTHS))
         rec = pg.gen_record(rng, n=L, dt=dt, scale=float(10.0 ** rng.integers(-2, 3)))
         mode = ["diff", "flat", "both"][i % 3]
         S = float(rng.choice([1.0, 2.5, 629.0, 1e3]))
+        own_n = (i % 2 == 1)       # fft_settings = {"n": None}: the transform length is the record length itself, odd or even
+        if own_n:
+            L = L | 1 if i % 4 == 1 else (L + 1) & ~1
+            rec = pg.gen_record(rng, n=L, dt=dt, scale=float(10.0 ** rng.integers(-2, 3)))
         kw = dict(orient_to_degrees_from_north=None, filter_corner_frequencies_in_hz=[None, None], window_length_in_seconds=None, detrend=None,
-                  window_type_and_width=["tukey", w], fft_settings=None)
+                  window_type_and_width=["tukey", w], fft_settings=(dict(n=None) if own_n else None))
         if mode == "diff":
             st = hvsrpy.PsdPreProcessingSettings(differentiate=True, **kw)
         elif mode == "both":
@@ -132,21 +136,21 @@ def preprocess_transforms(ctx, rng):
         from scipy.signal import detrend
         from scipy.signal.windows import tukey
         x = detrend(np.array(rec["vt"]), type="constant") * tukey(L, w)
-        n = 32768
-        cases.append(dict(mode=mode, dt=dt, L=L, width=w, S=S, record=rec, impl=y, x=x.tolist()))
+        n = L if own_n else 32768
+        cases.append(dict(mode=mode, dt=dt, L=L, width=w, S=S, record=rec, impl=y, x=x.tolist(), n=n))
         lines.append(f"diffx {n} {hexf(dt)} {fvec(x)}" if mode == "diff" else f"flatresp {n} {hexf(S)} {fvec(x)}")
         lines.append(f"flatclosed {n} {hexf(S)} {fvec(x)}")
         cases[-1]["line_idx"] = len(lines) - 2
     outs = run_driver(lines)
     # "both": the code removes the response first and differentiates the result (one detrend + taper only)
-    second = [(k, f"diffx 32768 {hexf(c['dt'])} {' '.join(outs[2 * k].split()[1:])}") for k, c in enumerate(cases) if c["mode"] == "both"]
+    second = [(k, f"diffx {c['n']} {hexf(c['dt'])} {' '.join(outs[2 * k].split()[1:])}") for k, c in enumerate(cases) if c["mode"] == "both"]
     outs2 = dict(zip([k for k, _ in second], run_driver([l for _, l in second])))
     for k, c in enumerate(cases):
         t = Toks(outs2[k] if c["mode"] == "both" else outs[2 * k]); t.tok(); mo = t.vec()
         t2 = Toks(outs[2 * k + 1]); t2.tok(); closed = t2.vec()
         ctx.case((c["mode"], c["record"], c["width"], c["S"]), nontrivial=not isinstance(c["impl"], str),
                  sample=dict(mode=c["mode"], L=c["L"], dt=c["dt"], S=c["S"], impl_first=(c["impl"][:3] if not isinstance(c["impl"], str) else c["impl"])))
-        ctx.count("preprocess:" + c["mode"])
+        ctx.count("preprocess:" + c["mode"]); ctx.count("preprocess-n:" + ("default" if c["n"] == 32768 else "record-length-odd" if c["n"] % 2 else "record-length-even"))
         ctx.traces += 1
         scale = float(np.max(np.abs(c["x"]))) * (2 * np.pi / (2 * c["dt"]) if c["mode"] != "flat" else 1.0) / (c["S"] if c["mode"] != "diff" else 1.0)
         if isinstance(c["impl"], str) or not vclose(c["impl"], mo, scale, 1e-7):
